@@ -234,7 +234,9 @@ class Scheduler:
         if st is None:
             return None
         tid = st.ident2tid.get(threading.get_ident())
-        if tid is None:
+        if tid is None or st.busy[tid]:
+            # not a worker, or a worker inside the scheduler's own bookkeeping
+            # (start-up, probe, finish): never a yield point
             return None
         self._yield_point(st, tid)
         return None
@@ -295,6 +297,7 @@ class Scheduler:
         st.res = res = Result()
         st.ident2tid = {}
         st.local = [0] * n
+        st.busy = [True] * n
         st.step = 0
         st.live = set(range(n))
         st.current = None
@@ -320,11 +323,13 @@ class Scheduler:
                 while st.current != tid and not st.abort:
                     cv.wait(0.5)
                 self._resumed(st, tid)
+                st.busy[tid] = False
             try:
                 res.outcomes[tid] = thunks[tid]()
             except BaseException as e:  # noqa: BLE001 - reported, not judged
                 res.errors[tid] = e
             finally:
+                st.busy[tid] = True
                 with cv:
                     st.live.discard(tid)
                     if st.live and not st.abort:
